@@ -10,7 +10,7 @@ from treelib import E, ExpressionParser, close, exact_eval, gen_trees, kind, rea
 
 from mathy_core import util as U
 
-TERMS = ["x", "y", "2x", "-3x", "0.5y", "x^2", "4x^2", "-x", "-x^2", "7", "-2", "y^3", "2xy", "x * x"]
+TERMS = ["x", "y", "2x", "-3x", "0.5y", "x^2", "4x^2", "-x", "-x^2", "7", "-2", "y^3", "2xy", "x * x", "2 * 3", "2^3", "-(3)", "4!", "x * y", "2x * 3"]
 
 
 def groupings(items):
